@@ -256,12 +256,13 @@ def run_sequence(seq):
 
 
 def explore(item):
-    first_op, length = item
+    first_op, length = item[:2]
+    fixed = [OPS[first_op]] + [OPS[j] for j in item[2:]]      # a fixed prefix, the rest of the history is free
     ctx = Ctx(10000, max_paths=400000, free_selectors=True)
 
     def path(c):
-        seq = [OPS[first_op]]
-        for pos in range(1, length):
+        seq = list(fixed)
+        for pos in range(len(fixed), length):
             idx = len(OPS) - 1
             for j in range(len(OPS) - 1):
                 if c.branch(z3.Bool('op_%d_%d' % (pos, j))):
@@ -288,6 +289,11 @@ def main():
     else:
         items = [(i, 4) for i in range(len(OPS)) if OPS[i][0].startswith(('register', 'clear'))]
         items += [(i, 3) for i in range(len(OPS)) if not OPS[i][0].startswith(('register', 'clear'))]
+    if quick:
+        # histories of 4 that start with a factory registration and the first use of its meta-model (the cached
+        # instance must survive whatever the two following steps are)
+        reg = OPS.index(('register_language', 'lng', PATTERNS[NAMES.index('lng') % 3], 'factory'))
+        items.append((reg, 4, OPS.index(('metamodel_for_language', 'lng', False))))
     results = pmap(explore, items)
     chk.cov['functions_encoded'] = src_hash(REG.register_language, REG.language_description, REG.metamodel_for_language,
                                             REG.languages_for_file, REG.language_for_file, REG.register_generator,
